@@ -238,6 +238,35 @@ theorem useSummary_small (b : Cell K) (D θ : K) (hb : 0 < b.hw) (hθ : θ < min
     simp [h0, not_lt.mpr (le_of_lt h4)]
   · simp [h0]
 
+theorem stdMax_nonneg (b : Cell K) (h1 : 0 ≤ b.hw) (h2 : 0 ≤ b.hh) : 0 ≤ stdMax b.hh b.hw := by
+  unfold stdMax; split_ifs <;> assumption
+
+/-- **the summary criterion is the C++ expression**: for every `s > 0` with `s·s = D` (the contract of `sqrt` on a
+    positive argument) `is the square-free test` ⇔ `std::max(hh, hw) / s < θ` -/
+theorem useSummary_iff_sqrt (θ D s : K) (b : Cell K) (hs : 0 < s) (hsD : s * s = D) (h1 : 0 ≤ b.hw) (h2 : 0 ≤ b.hh) :
+    useSummary θ b D = true ↔ stdMax b.hh b.hw / s < θ := by
+  have hm := stdMax_nonneg b h1 h2
+  have hD : D ≠ 0 := by rw [← hsD]; exact ne_of_gt (mul_pos hs hs)
+  unfold useSummary
+  simp only [hD, if_false, Bool.and_eq_true, decide_eq_true_eq]
+  rw [div_lt_iff₀ hs, ← hsD]
+  constructor
+  · rintro ⟨hθ, hlt⟩
+    by_contra hge
+    have hge' : θ * s ≤ stdMax b.hh b.hw := not_lt.mp hge
+    have hpos : 0 ≤ θ * s := le_of_lt (mul_pos hθ hs)
+    have := mul_self_le_mul_self hpos hge'
+    nlinarith
+  · intro hlt
+    have hθs : 0 < θ * s := lt_of_le_of_lt hm hlt
+    have hθ : 0 < θ := by
+      by_contra hn
+      have : θ * s ≤ 0 := mul_nonpos_of_nonpos_of_nonneg (not_lt.mp hn) (le_of_lt hs)
+      linarith
+    refine ⟨hθ, ?_⟩
+    have := mul_self_lt_mul_self hm hlt
+    nlinarith
+
 theorem stdMax_pos (b : Cell K) (hb : 0 < b.hw) : 0 < stdMax b.hh b.hw := by
   unfold stdMax
   split_ifs with h
